@@ -325,6 +325,15 @@ func (tx *Tx) rollback() {
 		return
 	}
 	if tx.writable {
+		// If this transaction's meta page has already been written (only the
+		// final sync failed), every later transaction starts from it: the
+		// transaction is in effect. Keep the freelist as after a successful
+		// commit, so that the pages it freed stay pending for open readers
+		// instead of becoming reusable right away.
+		if tx.db.data != nil && tx.db.meta().Txid() == tx.meta.Txid() {
+			tx.close()
+			return
+		}
 		tx.db.freelist.Rollback(tx.meta.Txid())
 		// When mmap fails, the `data`, `dataref` and `datasz` may be reset to
 		// zero values, and there is no way to reload free page IDs in this case.
